@@ -16,6 +16,7 @@ mod udpcodec;
 mod udpnet;
 mod validator;
 mod wsjson;
+mod wsstore;
 
 fn arg<T: std::str::FromStr>(args: &[String], name: &str, default: T) -> T {
     args.iter()
@@ -55,6 +56,7 @@ fn main() {
         "udpnet" => udpnet::run(&mut out, seed, cases, &replay, arg(&args, "--uring-resp-buf", 2048)),
         "udpcodec" => udpcodec::run(&mut out, seed, cases, &replay),
         "wsjson" => wsjson::run(&mut out, seed, cases, &replay),
+        "wsstore" => wsstore::run(&mut out, seed, cases, maxops, &replay),
         "validator" => validator::run(&mut out, seed, cases, &replay),
         "acl" => acl::run(&mut out, seed, cases, &replay),
         "addr" => addr::run(&mut out, seed, cases, &replay),
